@@ -204,6 +204,7 @@ class CmdWorld:
         finally:
             out["vtime"] = loop.time()
             out["steps"] = loop.steps
+            out["unhandled"] = list(loop.unhandled)
             if self.pump_timer is not None:
                 self.pump_timer.cancel()
             loop.vcap = None
